@@ -123,6 +123,7 @@ static const char *canon(const char *p) {
 
 /* Called at the start of every wrapped call: numbering, crash, fault.
  * Returns 0 to proceed, or an errno to fail with. */
+static const char *g_gate_name, *g_gate_path; /* refinements for the hook: set by a wrapper just before GATE_FAIL */
 static int gate(const char *name) {
   long idx = W.ncalls++;
   if (W.crash_at == idx) {
@@ -134,6 +135,12 @@ static int gate(const char *name) {
     _exit(77);
   }
   logf_("%ld %s", idx, name);
+  if (W.gate_hook) {
+    int e = W.gate_hook(g_gate_name ? g_gate_name : name, g_gate_path);
+    if (e) {
+      return e;
+    }
+  }
   if (W.fail_at == idx) {
     W.fault_hit = 1;
     return W.fail_errno ? W.fail_errno : EIO;
@@ -180,7 +187,10 @@ int __wrap_open64(const char *path, int flags, ...) {
   if (W.open_from && !strcmp(path, W.open_from)) {
     path = W.open_to;
   }
-  GATE_FAIL("open", -1);
+  g_gate_name = (flags & O_CREAT) ? "open-creat" : NULL;
+  g_gate_path = path;
+  GATE_FAIL("open", (g_gate_name = g_gate_path = NULL, -1));
+  g_gate_name = g_gate_path = NULL;
   logf_(" %s %s%s%s%s%s%s", canon(path),
         (flags & O_ACCMODE) == O_RDONLY ? "R" : (flags & O_ACCMODE) == O_WRONLY ? "W" : "RW",
         flags & O_CREAT ? "|CREAT" : "", flags & O_EXCL ? "|EXCL" : "",
@@ -265,7 +275,9 @@ ssize_t __wrap_sendfile64(int out, int in, off_t *off, size_t n) {
 }
 
 int __wrap_mkdir(const char *p, mode_t m) {
-  GATE_FAIL("mkdir", -1);
+  g_gate_path = p;
+  GATE_FAIL("mkdir", (g_gate_path = NULL, -1));
+  g_gate_path = NULL;
   logf_(" %s", canon(p));
   return done_i(__real_mkdir(p, m));
 }
